@@ -228,6 +228,23 @@ Theorem C08_prune8_nothing_else : forall ex cs g r g' tr,
 Proof. exact (fun ex cs g r g' tr E x Hx => sound_exec ex OPrune8 cs g r g' tr E x Hx). Qed.
 Print Assumptions C08_prune8_nothing_else.
 
+(* ================= prune as extended by proposed_fixes/C08-9 (operation OPrune9) ======================
+   The collection phase also visits the Facility nodes (Topology.nodes leaves them out) and removes a Facility node in
+   the pruned state with remove_facility; everything else as OPrune8.  Selected by the harness when the running
+   library's prune mentions facilities and _prune_node mentions remove_facility. *)
+Theorem C08_prune9_targets_deleted : forall ex cs g r g' tr,
+  ids_distinct g -> run (exec ex OPrune9 cs) g = (inl r, (g', tr)) ->
+  forall x, prune_target9 g x -> In x tr.
+Proof. exact prune9_targets. Qed.
+Print Assumptions C08_prune9_targets_deleted.
+
+(* ... and nothing but what removing each marked element may delete (a marked Facility node: what remove_facility of
+   that name may delete, A_node) *)
+Theorem C08_prune9_nothing_else : forall ex cs g r g' tr,
+  run (exec ex OPrune9 cs) g = (r, (g', tr)) -> forall x, In x tr -> A_prune9 g x.
+Proof. exact (fun ex cs g r g' tr E x Hx => sound_exec ex OPrune9 cs g r g' tr E x Hx). Qed.
+Print Assumptions C08_prune9_nothing_else.
+
 (* ================= handles: "report the same interfaces as a freshly looked-up handle" ================ *)
 
 (* disconnect_interface through a service handle whose list was fresh; the hypothesis on the peer says
@@ -419,3 +436,12 @@ Example C08_nonvacuous_prune8 :
   trace_of (run (exec true OPrune8 []) G13) = [3%N] /\
   with_children G13 2 = [2; 3]%N /\ marked G13 3 = true.
 Proof. exact ex_prune_only_child. Qed.
+
+(* a Facility node in the pruned state (G14): not visited before C08-9, removed with its service, port and the peering
+   artefacts afterwards; the other service stays *)
+Example C08_nonvacuous_prune9 :
+  trace_of (run (exec true OPrune8 []) G14) = [] /\
+  ok_of (run (exec true OPrune9 []) G14) = true /\
+  trace_of (run (exec true OPrune9 []) G14) = [1; 2; 3; 4; 5]%N /\
+  prune_nodes G14 = [] /\ all_of_class G14 CNode = [1%N] /\ type_of G14 1 = T_Facility /\ marked G14 1 = true.
+Proof. exact ex_prune_facility. Qed.
